@@ -12,7 +12,7 @@ EXPLANATION = ('Static rule set over the MIR event graphs of every Observer impl
                'E2 every producer loop / repeating task consults is_finished before each next; '
                'E3 RepeatTask::poll returns Ready without re-arming when the task declines; '
                'E4 a terminal sent from inside next() is sent on a value take()n out of the slot; '
-               'E5 a stream-driving task consults is_finished between an emission and the next suspension (Pending), so a stream '
+               'E6 the early terminators (take, take_while(_inclusive)) really end the stream when their condition is met, i.e. empty their slot so that is_finished turns true upstream (same rule as C03.S8); E5 a stream-driving task consults is_finished between an emission and the next suspension (Pending), so a stream '
                'ended from inside next() retires the task even when the inner stream stays quiet. '
                'Decides the retirement protocol per impl; does not decide timing ("within one period").')
 ASSUMPTIONS = ['leaf observers (role table) are the ends of a pipeline and may answer is_finished locally']
@@ -37,6 +37,7 @@ def check(cx):
     out += e3(cx)
     out += e4(cx)
     out += e5(cx)
+    out += e6(cx)
     return out
 
 
@@ -327,3 +328,17 @@ def e5(cx):
     if not cx.control and n < 2:
         res.append(Finding(ID, 'E5', 'floor', False, 'expected the two stream driver futures, found %d' % n))
     return res
+
+
+def e6(cx):
+    """the operators that end a stream early do end it at the item their definition names (same rule as C03.S8)"""
+    if cx.control:
+        return []
+    from . import c03
+    out = []
+    for f in c03.s8(cx):
+        if any(t in f.key for t in ('take::TakeObserver', 'take_while::TakeWhileObserver')):
+            out.append(Finding(ID, 'E6', f.key, f.ok, f.msg, f.loc, f.witness))
+    if len(out) < 2:
+        out.append(Finding(ID, 'E6', 'floor', False, 'expected take and take_while, found %d' % len(out)))
+    return out
